@@ -125,6 +125,18 @@ def bracket_cases():
     return out
 
 
+def regex_cases():
+    """REGEX constraint patterns inside holographic lists that make `re.compile` raise something other than re.error
+    (OverflowError, RecursionError) or work hard: the reader compiles the pattern while parsing."""
+    pats = ["a{99999999999}", "a{1,99999999999}", "(" * 600 + ")" * 600, "(?:" * 400 + "a" + ")" * 400, "[" + "a" * 50000 + "]", "a{65535}{65535}",
+            "(?P<n>a)(?P<n>b)", "\\", "(a*)*$", "a" * 20000]
+    out = []
+    for p in pats:
+        q = p.replace('"', "")
+        out += [f'K::["x"∧REGEX["{q}"]]\n', f'===D===\nMETA:\n  TYPE::SCHEMA\nFIELDS:\n  F::["x"∧REQ∧REGEX["{q}"]]\n===END===\n']
+    return out
+
+
 def tools_chunk(arg):
     """worker: the tools clause on a few contents; returns (failures, stats)."""
     import random as _r
@@ -168,7 +180,7 @@ def run(ctx: vlib.Ctx):
         for _ in range(rng.choice([1, 1, 2, 4])):
             t = TC.mutate(t, rng)
         texts.append(t)
-    texts += bracket_cases()
+    texts += bracket_cases() + regex_cases()
     texts = list(dict.fromkeys(texts))
     # reader calls run under a deadline: a hang of the implementation is a violation of this property, not a timeout of the check
     chunks = [texts[i:i + 250] for i in range(0, len(texts), 250)]
@@ -262,7 +274,7 @@ def run(ctx: vlib.Ctx):
         open_ids = {f["id"] for f in findings}
         # contents for the tool clause: raw texts, shipped documents, content-model documents (all constructs, PATTERN/REGEX keys,
         # zones, holographic-looking lists) and a pool of values that take unusual routes through warnings / repair logs
-        pool = ["REGEX::[alpha,beta]", "RULES::[PATTERN::[a,b]]", "PATTERN::\n```\nx\n```\n", "K::[REGEX::[\"x\"∧REQ]]", "PATTERN::[k::v]",
+        pool = regex_cases()[:8] + ["REGEX::[alpha,beta]", "RULES::[PATTERN::[a,b]]", "PATTERN::\n```\nx\n```\n", "K::[REGEX::[\"x\"∧REQ]]", "PATTERN::[k::v]",
                 "===D===\nMETA:\n  TYPE::[a,b]\n  CONTRACT::[FIELD[x]::REQ]\n===END===\n", "K::NAME{q}", "K::\"\"\"a\nb\"\"\" x", "K::1e400",
                 "===D===\nMETA:\n  N:\n    A::[1,[2]]\n---\n§1::S\n  K::[\"e\"∧ENUM[a,b]→§T]\n===END===\n"]
         gen_docs = []
